@@ -2228,7 +2228,10 @@ def _config_str(
     macros = {}
     for (scope, selector), config in configuration_object.items():
       if _REGISTRY[selector].wrapped == macro:  # pylint: disable=comparison-with-callable
-        macros[scope, selector] = config
+        # Like any other value, a macro's value is only written out if it can
+        # be parsed back.
+        if _is_literally_representable(config['value']):
+          macros[scope, selector] = config
     if macros:
       formatted_statements.append('# Macros:')
       formatted_statements.append('# ' + '=' * (max_line_length - 2))
